@@ -1,4 +1,4 @@
-import CaresLemmas.ChanWfExec
+import CaresLemmas.ChanWfDestroy
 /-!
 # C01 — every request completes exactly once, whatever happens in between
 
@@ -13,7 +13,8 @@ Helper lemmas live in `CaresLemmas/ChanWf*.lean`.
   (`(exec fuel call s).1.outOfFuel = false`): fuel is an artefact of the model (the C code has none), and a run
   cut short by it stops in the middle of a C function, where the invariant does not hold
   (`wf_not_unconditional` below is the kernel-checked witness).
-* `ares_destroy` (`.destroy`) is not covered by these three theorems (see the notes).
+* `ares_destroy` (`.destroy`) is never called by another procedure; it has its own theorem
+  (`destroy_completes_all`), `CallOk s .destroy` is `False` by definition so that theorems 1–3 do not apply to it.
 -/
 namespace Cares.C01
 open Cares.Chan
@@ -60,6 +61,48 @@ theorem tokens_accounted (fuel : Nat) (call : Call) (s : St) (h : CallOk s call)
     (∀ t ∈ (exec fuel call s).1.pendingToks, t ∉ (exec fuel call s).1.doneToks) ∧
     (exec fuel call s).1.pendingToks.Nodup :=
   ⟨(wf_preserved fuel call s h hf).1.tok.disj, (wf_preserved fuel call s h hf).1.tok.pN⟩
+
+/-- **4a. `ares_cancel` completes everything**: every request of the application that was outstanding (in
+    `all_queries`) when `ares_cancel` was called has had its callback when it returns — also the requests that a
+    callback run by the cancellation completed on another path, and whatever the callbacks started or cancelled
+    meanwhile -/
+theorem cancel_completes_all (fuel : Nat) (s : St) (h : Inv s)
+    (hf : (exec fuel .cancel s).1.outOfFuel = false) :
+    ∀ q ∈ s.qs, q.key ∈ s.all → ∀ tok, q.owner = .user tok → tok ∈ (exec fuel .cancel s).1.doneToks := by
+  rcases (goOk_exec fuel).2 _ .cancel s h with hoof | hg
+  · rw [hf] at hoof; cases hoof
+  · intro q hq hk tok ho
+    refine hg.post q.key hk tok ?_
+    exact List.mem_map.mpr ⟨q.sk, List.mem_map.mpr ⟨q, hq, rfl⟩, by rw [← ho]; rfl⟩
+
+/-- **4b. `ares_destroy` completes everything and leaves nothing behind.**  Called between API calls (no
+    `ares_cancel` walk in progress: `listCopy = []`), and if it does not run out of fuel: the invariant holds
+    afterwards, no safety fault is recorded, no callback is made twice, every linked request of the application has
+    had its callback, `all_queries` and the qid table are empty, every connection that was on a server's list is
+    closed (what remains, if anything, are connections an outer frame was in the middle of closing — there are none
+    between API calls), and the channel is marked dead: the driver makes no further calls on it
+    (`no_cb_after_destroy`: `alive = false`, `destroyed = true`; a callback made with `destroyed = true` would emit
+    `MON:cb-after-destroy`). -/
+theorem destroy_completes_all (fuel : Nat) (s : St) (h : Inv s) (hl : s.listCopy = [])
+    (hf : (exec fuel .destroy s).1.outOfFuel = false) :
+    Inv (exec fuel .destroy s).1 ∧
+    (exec fuel .destroy s).1.modelFaults = s.modelFaults ∧
+    (exec fuel .destroy s).1.doneToks.Nodup ∧
+    (∀ q ∈ s.qs, q.key ∈ s.all → ∀ tok, q.owner = .user tok → tok ∈ (exec fuel .destroy s).1.doneToks) ∧
+    (exec fuel .destroy s).1.all = [] ∧ (exec fuel .destroy s).1.byQid = [] ∧
+    (∀ c ∈ (exec fuel .destroy s).1.conns, c.unlinked = true) ∧
+    (exec fuel .destroy s).1.alive = false ∧ (exec fuel .destroy s).1.destroyed = true := by
+  cases fuel with
+  | zero => exact absurd hf (by show ¬ (true = false); simp)
+  | succ n =>
+    have he : exec (n + 1) .destroy s = bodyDestroy (exec n) s := rfl
+    rw [he] at hf ⊢
+    rcases good_destroy (goOk_exec n) h.1 h.2 hl with hoof | ⟨hm, ha, hb, hc, hal, hde, hdone⟩
+    · rw [hf] at hoof; cases hoof
+    · refine ⟨⟨hm.wf, hm.debt⟩, hm.step.faults, hm.wf.tok.dN, ?_, ha, hb, hc, hal, hde⟩
+      intro q hq hk tok ho
+      refine hdone q.key (h.1.i.allIdx q.key hk) tok ?_
+      exact List.mem_map.mpr ⟨q.sk, List.mem_map.mpr ⟨q, hq, rfl⟩, by rw [← ho]; rfl⟩
 
 /-! ### how the driver establishes `CallOk` -/
 
@@ -127,5 +170,128 @@ theorem callOk_accept {s : St} (h : Inv s) (tok : Nat) (hb : tok < 10000 + s.rea
 theorem inv_of_sk_eq {s s' : St} (h : s'.sk = s.sk) (hi : Inv s) : Inv s' := by
   unfold Inv Wf at *
   rw [h]; exact hi
+
+/-- the by-timeout insertions the driver replays at the end of every operation (`St.settle`) keep the
+    invariant -/
+theorem inv_settle {s : St} (h : Inv s) : Inv s.settle := ⟨wf_settle h.1, debt_settle h.1 h.2⟩
+
+/-! ### non-vacuity -/
+
+/-- a freshly initialised channel (as built by the driver's `chan` line) satisfies the invariant -/
+theorem inv_init (cfg : Cfg) (srvs : List Server) (hn : (srvs.map (·.id)).Nodup)
+    (hc : ∀ v ∈ srvs, v.conns = [] ∧ v.tcpConn = none) :
+    Inv { cfg := cfg, alive := true, servers := srvs } := by
+  have nil_all : ∀ {α : Type} {P : α → Prop}, ∀ x ∈ ([] : List α), P x := fun _ h => nomatch h
+  refine ⟨⟨⟨List.nodup_nil, nil_all⟩,
+    ⟨nil_all, List.nodup_nil, nil_all, nil_all, List.nodup_nil, nil_all⟩,
+    ⟨List.nodup_nil, nil_all, List.nodup_nil, nil_all⟩,
+    ⟨List.nodup_nil, nil_all, nil_all, nil_all, nil_all, nil_all⟩,
+    ⟨?_, ?_, ?_, ?_, fun _ _ _ h => nomatch h⟩,
+    ⟨List.nodup_nil, nil_all⟩,
+    ⟨List.nodup_nil, List.nodup_nil, nil_all, nil_all, nil_all, nil_all, nil_all, nil_all, nil_all⟩⟩,
+    ⟨fun _ _ => rfl, nil_all⟩⟩
+  · show ((srvs.map Server.sk).map (·.id)).Nodup
+    rw [List.map_map]; exact hn
+  · intro v hv
+    obtain ⟨v0, hv0, rfl⟩ := List.mem_map.mp hv
+    show v0.conns.Nodup
+    rw [(hc v0 hv0).1]; exact List.nodup_nil
+  · intro v hv fd hfd
+    obtain ⟨v0, hv0, rfl⟩ := List.mem_map.mp hv
+    have : v0.conns = [] := (hc v0 hv0).1
+    change fd ∈ v0.conns at hfd
+    rw [this] at hfd; cases hfd
+  · intro v hv fd hfd
+    obtain ⟨v0, hv0, rfl⟩ := List.mem_map.mp hv
+    have : v0.tcpConn = none := (hc v0 hv0).2
+    change v0.tcpConn = some fd at hfd
+    rw [this] at hfd; cases hfd
+
+namespace Example
+
+def srvs : List Server := [{ id := 0, addr := "10.0.0.1" }, { id := 1, addr := "10.0.0.2" }]
+def reacts : List (Nat × Reaction) := [(0, { kind := "send", name := "6262" }), (1, { kind := "cancel" })]
+/-- two servers; reaction 0 starts a new request from inside a callback, reaction 1 calls `ares_cancel` -/
+def s0 : St := { ({ alive := true, servers := srvs } : St) with reactions := reacts }
+def fuel : Nat := 60
+def call1 : Call := .sendNolock none false false { name := "6161", qtype := 1 } (.user 1) [0, 1]
+/-- 1. the application sends a request (token 1) whose callback will run reactions 0 and 1 -/
+def s1 : St := (exec fuel call1 { s0 with pendingToks := s0.pendingToks ++ [1] }).1
+/-- 2. 2.5 s pass: the first attempt times out and the query is retried on the second server -/
+def s2 : St := (exec fuel .processTimeouts { s1.settle with now := 2500 }).1
+def reply : Reply := { id := 70000, name := "6161", qtype := 1, qclass := 1, rcode := 0, an := 1, ttls := [300], len := 40 }
+/-- 3. the reply arrives: the callback of token 1 runs, starts request 10000 and then cancels the channel,
+    which completes 10000 with `cancelled` -/
+def s3 : St := (exec fuel (.processRead 101) (s2.settle.modSock 101 fun v => { v with rx := v.rx ++ [reply] })).1
+
+example : Inv s0 := inv_of_sk_eq (s := { alive := true, servers := srvs }) rfl
+  (inv_init {} srvs (by decide) (by decide))
+
+set_option maxRecDepth 100000 in
+theorem run_completes : s1.outOfFuel = false ∧ s2.outOfFuel = false ∧ s3.outOfFuel = false := by decide +kernel
+
+set_option maxRecDepth 100000 in
+/-- what the run does: both callbacks made exactly once, nothing pending, nothing live, no safety fault -/
+theorem run_result : s3.doneToks = [1, 10000] ∧ s3.pendingToks = [] ∧ s3.modelFaults = [] ∧
+    s3.qs.length = 0 ∧ s3.conns.length = 0 := by decide +kernel
+
+/-- the hypotheses of the theorems hold along this run, so their conclusions do (non-vacuously) -/
+theorem run_inv : Inv s1 ∧ Inv s2 ∧ Inv s3 := by
+  have h0 : Inv s0 := inv_of_sk_eq (s := { alive := true, servers := srvs }) rfl
+    (inv_init {} srvs (by decide) (by decide))
+  have a1 := callOk_accept h0 1 (by decide) (by decide) (by decide)
+  have i1 : Inv s1 := wf_preserved fuel call1 _ (a1.2.1 _ _) run_completes.1
+  have i1' : Inv { s1.settle with now := 2500 } := inv_of_sk_eq (s := s1.settle) rfl (inv_settle i1)
+  have i2 : Inv s2 := wf_preserved fuel .processTimeouts _ (callOk_loop i1').2.2.1 run_completes.2.1
+  have i2' : Inv (s2.settle.modSock 101 fun v => { v with rx := v.rx ++ [reply] }) :=
+    inv_of_sk_eq (sk_modSock _ _ _ (fun _ => rfl)) (inv_settle i2)
+  have i3 : Inv s3 := wf_preserved fuel (.processRead 101) _ ((callOk_loop i2').1 101) run_completes.2.2
+  exact ⟨i1, i2, i3⟩
+
+/-- destroying the channel while request 1 is outstanding: its callback is made (with `destruction`), its
+    reactions are not run, everything is released -/
+def sD : St := (exec fuel .destroy s1.settle).1
+
+set_option maxRecDepth 100000 in
+theorem destroy_result : sD.outOfFuel = false ∧ sD.doneToks = [1] ∧ sD.pendingToks = [] ∧ sD.modelFaults = [] ∧
+    sD.qs.length = 0 ∧ sD.conns.length = 0 ∧ sD.alive = false ∧ s1.settle.listCopy = [] ∧ s1.settle.all = [0] := by
+  decide +kernel
+
+/-- the destroy theorem applies to this run -/
+example : Inv sD ∧ sD.doneToks.Nodup ∧ sD.all = [] :=
+  have h := destroy_completes_all fuel s1.settle (inv_settle run_inv.1) destroy_result.2.2.2.2.2.2.2.1
+    destroy_result.1
+  ⟨h.1, h.2.2.1, h.2.2.2.2.1⟩
+
+/-! #### fuel exhaustion really breaks the invariant
+
+With fuel 1, `process_answer` takes the answered query off its connection's list and then "calls" `end_query`,
+which runs out of fuel: the run stops inside the C function, with the query still naming a connection that no
+longer lists it.  This is why the theorems above are about runs that complete. -/
+
+def bad : St := (exec 1 (.processAnswer 101 reply) s2.settle).1
+
+set_option maxRecDepth 100000 in
+theorem bad_facts : bad.outOfFuel = true ∧ (0, some 101) ∈ bad.sk.qKC ∧ bad.sk.cFQ = [(100, []), (101, [])] := by
+  decide +kernel
+
+theorem wf_not_unconditional :
+    ∃ fuel call s, CallOk s call ∧ ¬ Wf (exec fuel call s).1 := by
+  refine ⟨1, .processAnswer 101 reply, s2.settle, ?_, ?_⟩
+  · have hi := inv_settle run_inv.2.1
+    refine ⟨hi.1, ?_, hi.2⟩
+    show 101 ∈ s2.settle.sk.cFQ.map (·.1)
+    decide +kernel
+  · intro h
+    obtain ⟨c, hc, h1, h2⟩ := h.c.qc (0, some 101) bad_facts.2.1 101 rfl
+    have hl : c ∈ [(100, ([] : List Nat)), (101, [])] := bad_facts.2.2 ▸ hc
+    simp only [List.mem_cons, List.not_mem_nil, or_false] at hl
+    rcases hl with rfl | rfl
+    · cases h1
+    · rcases h2 with h2 | h2
+      · cases h2
+      · cases h2
+
+end Example
 
 end Cares.C01
